@@ -30,6 +30,19 @@ let handle = function
       else "none"
   | ["capi"; s; l; r] ->
       let (bc, _) = cfgs s "0" in out_s (run_capi bc (cls_of l) (cls_of r))
+  | ["rc"; w; tord; xkind; ts; xs; ub; l; r; op] ->
+      (* rc <a|b> <total_ordering> <py|cy> <T: 6 chars lt le eq ne gt ge in u|n|t|f> <X: 6 chars> <U: 2 chars> <L> <R> <op 0..5> *)
+      let cs = function 'u' -> CU0 | 'n' -> CN | 't' -> CTr | 'f' -> CFa | _ -> failwith "cstate" in
+      let idx = function LT -> 0 | LE -> 1 | EQ -> 2 | NE -> 3 | GT -> 4 | GE -> 5 in
+      let stf s = fun m -> cs s.[idx m] in
+      let rc = function "T" -> RT | "X" -> RX | "U" -> RU | _ -> failwith "rcls" in
+      let opv = match op with "0" -> LT | "1" -> LE | "2" -> EQ | "3" -> NE | "4" -> GT | _ -> GE in
+      let (log, res) = rc_run (if w = "a" then WPy else WCy) (stf ts) (stf xs) (bool_of_string tord) (xkind = "py")
+                         (cs ub.[0]) (cs ub.[1]) false (rc l) (rc r) opv in
+      let names = [|"lt"; "le"; "eq"; "ne"; "gt"; "ge"|] in
+      let rs = function RT -> "T" | RX -> "X" | RU -> "U" in
+      String.concat "," (List.map (fun ((c, m), l) -> rs c ^ "." ^ names.(idx m) ^ ":" ^ (if l then "l" else "r")) log) ^ "|" ^
+      (match res with RNI -> "!NI" | RB true -> "True" | RB false -> "False" | RTypeErr -> "TypeError" | RFuel -> "!FUEL")
   | _ -> "!ERR badcmd"
 
 let () = main_loop handle
